@@ -4,7 +4,7 @@
 //! model (concatenated encodings of accepted items) is compared with what the
 //! transport received after every call.
 
-use std::{io, task::Poll};
+use std::{io, pin::Pin, task::Poll};
 
 use actix_codec::{BytesCodec, Decoder, Encoder, Framed, LinesCodec};
 use bytes::{Bytes, BytesMut};
@@ -148,6 +148,7 @@ struct Seen {
     short_writes: u64,
     bytes_checked: u64,
     contract_skips: u64,
+    conversions: u64,
 }
 
 fn payload(n: usize, tag: u8, lines: bool) -> Vec<u8> {
@@ -171,7 +172,12 @@ where
     let mut io = MockIo::writer(case.wscript.clone());
     io.flush_script = case.fscript.clone().into();
     io.shutdown_script = case.sscript.clone().into();
-    let mut framed = Box::pin(Framed::new(io, codec));
+    let mut framed = Framed::new(io, codec);
+    // before one op (chosen from the case) the Framed is rebuilt around the same transport, codec and buffers through
+    // one of its conversion methods; whatever is buffered must survive that
+    let h = vh_core::fnv_str(&format!("{:?}{:?}", case.ops, case.wscript));
+    let xform_kind = (h >> 5) % 4;
+    let xform_at = ((h >> 13) % (case.ops.len() as u64 + 1)) as usize;
     let mut expected: Vec<u8> = Vec::new();
     let mut may_send = false;
     let mut tag = 0u8;
@@ -180,7 +186,15 @@ where
     for (at, op) in case.ops.iter().enumerate() {
         let (w, rec) = new_waker(at as u64);
         let mut cx = std::task::Context::from_waker(&w);
-        framed.as_mut().get_mut().io_mut().begin_call();
+        if at == xform_at && xform_kind != 0 {
+            seen.conversions += 1;
+            framed = match xform_kind {
+                1 => Framed::from_parts(framed.into_parts()),
+                2 => framed.into_map_io(|io| io),
+                _ => framed.into_map_codec(|c| c),
+            };
+        }
+        framed.io_mut().begin_call();
         let received_before = framed.io_ref().written.len();
         let zero_before = framed.io_ref().zero_writes;
         let err_before = framed.io_ref().write_errors + framed.io_ref().ctl_errors;
@@ -205,7 +219,7 @@ where
                 let bytes = payload(*n, tag, case.lines);
                 let mut enc = BytesMut::new();
                 refcodec.encode(mk(bytes.clone()), &mut enc).map_err(|e| fail("C14:harness:reference-encode", e.to_string()))?;
-                let r = Sink::<I>::start_send(framed.as_mut(), mk(bytes));
+                let r = Sink::<I>::start_send(Pin::new(&mut framed), mk(bytes));
                 if let Err(e) = r {
                     return Err(fail("C14:start-send-error", format!("start_send failed: {e}")));
                 }
@@ -213,9 +227,9 @@ where
                 seen.items_sent += 1;
                 None
             }
-            Op::Ready => Some(Sink::<I>::poll_ready(framed.as_mut(), &mut cx)),
-            Op::Flush => Some(Sink::<I>::poll_flush(framed.as_mut(), &mut cx)),
-            Op::Close => Some(Sink::<I>::poll_close(framed.as_mut(), &mut cx)),
+            Op::Ready => Some(Sink::<I>::poll_ready(Pin::new(&mut framed), &mut cx)),
+            Op::Flush => Some(Sink::<I>::poll_flush(Pin::new(&mut framed), &mut cx)),
+            Op::Close => Some(Sink::<I>::poll_close(Pin::new(&mut framed), &mut cx)),
         };
 
         let io = framed.io_ref();
@@ -528,6 +542,7 @@ pub fn run(args: &Args, rep: &mut Report) {
     rep.add("obs_ready_below_mark", seen.ready_below_mark);
     rep.add("obs_write_zero_errors", seen.write_zero_errors);
     rep.add("obs_transport_errors", seen.transport_errors);
+    rep.add("obs_mid_sequence_conversions", seen.conversions);
     rep.add("obs_bytes_prefix_checked", seen.bytes_checked);
     rep.add("obs_contract_skipped_sends", seen.contract_skips);
 }
